@@ -114,6 +114,7 @@ func Run(fns []func(), choose Chooser, maxSteps int) (schedule []byte, ok bool) 
 		SiteHits = map[int]int{}
 		Adjacent = map[[2]int]int{}
 	}
+	yieldSite = [256]int{} // a worker that has not started yet is "at site 0", whatever ran before in this process
 	var wg sync.WaitGroup
 	done := make([]bool, len(fns))
 	active = true
